@@ -407,6 +407,8 @@ class SInt:
         if b[1] <= 0 <= b[2]:
             if ENGINE.branch(b[0] == 0):
                 raise ZeroDivisionError("integer division or modulo by zero")
+        if b[1] == b[2] and b[1] > 0 and ENGINE.active:
+            return _const_divmod(a, b[1])
         q = a[0] / b[0]  # signed truncating
         r = z3.SRem(a[0], b[0])
         adj = z3.And(r != 0, (r < 0) != (b[0] < 0))
@@ -523,6 +525,24 @@ class SInt:
         return SBytes(out)
 
 
+def _const_divmod(a, d):
+    """floor division of (term, lo, hi) by the positive constant d through fresh quotient and
+    remainder variables with their defining constraints (a multiplication by a constant is far
+    cheaper to bit-blast than a 64-bit divider); the constraints are total, so adding them to
+    the path condition excludes nothing."""
+    t, lo, hi = a
+    if d & (d - 1) == 0:  # power of two: shifts and masks
+        k = d.bit_length() - 1
+        return SInt(t >> k, lo >> k, hi >> k), SInt(t & (d - 1), 0, d - 1)
+    ENGINE._fresh += 1
+    q = z3.BitVec("_q%d" % ENGINE._fresh, W)
+    r = z3.BitVec("_r%d" % ENGINE._fresh, W)
+    qlo, qhi = lo // d, hi // d
+    ENGINE.solver.add(q >= qlo, q <= qhi, r >= 0, r < d, t == q * d + r)
+    ENGINE.model = None
+    return SInt(q, qlo, qhi), SInt(r, 0, d - 1)
+
+
 class SReal:
     """exact value num * frac (frac a concrete Fraction); only good for int() truncation of
     pure quotients, for virtual-time arithmetic and for comparison by the harness."""
@@ -540,6 +560,8 @@ class SReal:
         m = max(abs(n.lo), abs(n.hi))
         if m >= 1 << 52:
             raise EngineLimit("float division beyond the exactly representable range")
+        if n.lo >= 0 and ENGINE.active:
+            return _const_divmod((n.t, n.lo, n.hi), d)[0]
         q = n.t / _bv(d)  # signed truncating division == int(n / d) for |n| < 2**52
         return SInt(q, -(m // d) - 1, m // d + 1)
 
@@ -876,6 +898,8 @@ class Engine:
         self.input_meta = {}
         self.active = True
         self._fresh = 0
+        self.model = None  # a model known to satisfy everything asserted so far (or None)
+        self.pending = []  # deferred checks: (z3 cond, label, detail)
 
     def end(self):
         self.active = False
@@ -888,6 +912,17 @@ class Engine:
         if r == z3.unknown:
             raise EngineLimit("solver answered unknown: %s" % self.solver.reason_unknown())
         return r == z3.sat
+
+    def _model_says(self, cond):
+        """truth value of cond under the cached model, or None without a usable model"""
+        if self.model is None:
+            return None
+        v = self.model.eval(cond, model_completion=True)
+        if z3.is_true(v):
+            return True
+        if z3.is_false(v):
+            return False
+        return None
 
     def _site(self, kind):
         import sys
@@ -910,8 +945,22 @@ class Engine:
             if not isinstance(d, bool):
                 raise EngineLimit("non-deterministic replay (branch vs concretize)")
         else:
-            can_t = self._sat(cond)
-            can_f = self._sat(z3.Not(cond))
+            known = self._model_says(cond)
+            if known is True:
+                can_t = True
+                can_f = self._sat(z3.Not(cond))
+            elif known is False:
+                can_f = True
+                can_t = self._sat(cond)
+            else:
+                can_t = self._sat(cond)
+                if can_t:
+                    self.model = self.solver.model()
+                    can_f = self._sat(z3.Not(cond))
+                else:
+                    can_f = self._sat(z3.Not(cond))
+                    if can_f:
+                        self.model = self.solver.model()
             if can_t and can_f:
                 self.work.append(self.trace + [False])
                 d = True
@@ -927,6 +976,8 @@ class Engine:
         self.n_decisions += 1
         self.trace.append(d)
         self.solver.add(cond if d else z3.Not(cond))
+        if self.model is not None and self._model_says(cond) is not d:
+            self.model = None
         return d
 
     def concretize(self, x):
@@ -965,36 +1016,62 @@ class Engine:
         self.pos += 1
         self.n_decisions += 1
         self.trace.append(("eq", v))
+        if self.model is not None and self._model_says(x.t == v) is not True:
+            self.model = None
         return v
 
     def assume(self, c):
         c = _as_cond(c)
         if c is True:
             return
+        self.flush()  # assumptions are not retroactive: decide the earlier checks first
         if c is False:
             raise PathAbort()
         self.solver.add(c)
+        self.model = None
         if not self._sat():
             raise PathAbort()
+        self.model = self.solver.model()
 
     def check(self, c, label, detail=None):
+        """clause c must hold for every input on this path.  Undecided clauses are deferred
+        and decided together by one query (flush) at the next assumption / at the end of the
+        path / when an exception leaves the harness: the later branch decisions partition
+        the inputs of this point among the continuations, every continuation flushes, so
+        nothing is lost, and ~5x fewer queries are needed."""
         self.n_checks += 1
         self.labels[label] = self.labels.get(label, 0) + 1
         c = _as_cond(c)
         if c is True:
             return
         if c is False:
+            self.flush()
             if self._sat():
                 raise ViolationFound(label, self.solver.model(), detail)
             raise PathAbort()
-        if self._sat(z3.Not(c)):
-            raise ViolationFound(label, self.solver.model(), detail)
+        self.pending.append((c, label, detail))
+        if len(self.pending) >= 64:
+            self.flush()
+
+    def flush(self):
+        if not self.pending:
+            return
+        pend, self.pending = self.pending, []
+        neg = z3.Or(*[z3.Not(c) for c, _l, _d in pend]) if len(pend) > 1 else z3.Not(pend[0][0])
+        if self._sat(neg):
+            m = self.solver.model()
+            for c, label, detail in pend:
+                if not z3.is_true(m.eval(c, model_completion=True)):
+                    raise ViolationFound(label, m, detail)
+            raise EngineLimit("flush: model does not falsify any pending clause")
 
     def sym_int(self, name, lo, hi):
         if name in self.inputs:
             raise EngineLimit("duplicate input name %s" % name)
         t = z3.BitVec(name, W)
         self.solver.add(t >= lo, t <= hi)
+        if not lo <= 0 <= hi:
+            self.model = None  # model completion would pick 0
         self.inputs[name] = t
         return SInt(t, lo, hi)
 
@@ -1014,9 +1091,12 @@ class Engine:
 
     def path_model(self):
         """a model of the current path condition (or None)"""
+        if self.model is not None:
+            return self.model
         if not self._sat():
             return None
-        return self.solver.model()
+        self.model = self.solver.model()
+        return self.model
 
 
 ENGINE = Engine()
